@@ -51,7 +51,7 @@ CHECKS = {
    note="Trusts R-FLOW and R-SIP (self-tested against the README value); three behaviours left open by the statement are counted, not compared; wall clock pinned.",
    technique="exhaustive product enumeration of flow inputs against a reference law and an independent hash", ref="C04"),
  "C03": dict(cat="model_checking",
-   text="(i) Full product of final-release tags x branches x distance x dirty x post-mode x rule sets x hash lengths x label/post flags x the 11 standard presets x both formats through run_flow_pipeline; every output is compared by independent comparators (R-SV precedence, standard PEP 440 order) with X.Y.Z and X.Y.(Z+1), exactly X.Y.Z when clean at the tag; (ii) distance chains 0..6 per (tag, branch, rule set, preset, format) must be strictly increasing where the preset prints the post counter; (iii) every dev-less pre-release output fed back as a tag with --clean must be reproduced; (iv) on real git histories the C02 engine checks the same bounds and first-parent commit steps (reported under C02's evidence until the git engine lands).",
+   text="(i) Full product of final-release tags x branches x distance x dirty x post-mode x rule sets x hash lengths x label/post flags x the 11 standard presets x both formats through run_flow_pipeline; every output is compared by independent comparators (R-SV precedence, standard PEP 440 order) with X.Y.Z and X.Y.(Z+1), exactly X.Y.Z when clean at the tag; (ii) distance chains 0..6 per (tag, branch, rule set, preset, format) must be strictly increasing where the preset prints the post counter; (iii) every dev-less pre-release output fed back as a tag with --clean must be reproduced; (iv) on real git histories (C02's shape BFS x placements of final-release tags x HEAD x work-tree states) `zerv flow -C` is bounded by the model's nearest tag and a commit step on the checked-out branch must increase the version.",
    note="Independent comparators; for the two presets that omit the pre-release part by explicit choice the upper bound is non-strict on the public part; wall clock pinned.",
    technique="exhaustive product + chain enumeration of flow runs judged by independent version comparators", ref="C03"),
  "C12": dict(cat="model_checking",
@@ -62,6 +62,10 @@ CHECKS = {
    text="For every schema program of a bounded size x 6 variable assignments one template renders {{semver}}, {{pep440}} and all parts of semver_obj / pep440_obj; they must equal the formatter output for the same object, recompose exactly, and give the docker form. Scalar variables on every assignment (incl. keyword texts). Functions hash / hash_int / prefix x lengths 0..21 x 40 texts (multi-byte boundaries, keywords, numbers, bools) x allow_leading_zero, prefix_if, sanitize (presets and all separator/lowercase/keep_zeros combinations, max_length) against R-SIP and R-SAN; format_timestamp x 7 formats x a sweep of instants against R-CAL with the harness under TZ=PST8; a CLI/binary slice.",
    note="Rendered templates are trimmed and none/null/nil collapse by design; R-SAN, R-SIP, R-CAL trusted.",
    technique="exhaustive enumeration of objects x templates and function arguments against reference models", ref="C15"),
+ "C02": dict(cat="model_checking",
+   text="Two-layer explicit-state exploration of repository histories: (A) BFS over commit / branch&checkout / checkout / merge (fast-forward or true merge) from a one-commit repository, deduplicated on (DAG, branch refs), bounded by commits and branches; (B) every placement of up to 2 tags from a version/non-version/annotated/PEP-440-only alphabet on any commits x HEAD at every branch tip and detached at every commit x committer-date modes (increasing, decreasing, zig-zag); (C) every subset of 8 tag spellings on one commit x HEAD positions x the 3 input formats; (D) 8 work-tree states. Every state is materialised in real git (fast-import), conformance-checked against the model with git commands zerv does not use, then `zerv version -C` is judged against R-GIT: nearest validly tagged commit, highest tag (majority rule in auto mode), distance, dirty, branch, hashes, times, and 'no valid tag' reported as such.",
+   note="R-GIT oracle; choice among equal-precedence tags / among members of the nearest-tag antichain left open; octopus merges, shallow clones, worktrees, submodules out of scope; wall cap recorded in evidence (exhaustive=false if hit).",
+   technique="explicit-state BFS over repository operations x labelings, each state materialised in real git and judged by a reference model", ref="C02"),
 }
 
 def main():
